@@ -7,7 +7,6 @@ import (
 	"fmt"
 	"sort"
 	"strings"
-
 )
 
 // Verification hook (build tag "verif" only): a canonical text dump of the repo manager's in-memory
